@@ -259,6 +259,34 @@ class ArfProp(Prop):
             npend = sum(1 for t in script if t[0] == 3)
             cancel = ([rng.choice([0, 1]) for _ in range(npend)] + [1, 1, 1, 1]) if self.with_cancel else []
             cases.append(mk_arf(size, 0, [], 0, st, script, 3, 0, cancel, "long-call"))
+        # search directed by the source: when the tokio crate's source gained literals / narrow types, big buffers and long calls
+        from . import dictionary, fam_api
+        if fam_api.NOVEL:
+            def nm(c):
+                c.meta["nomodel"] = True      # the extracted model's deframers are quadratic in the unread length: checkers only
+                return c
+            for S in (65536, 100000):
+                for first in ([111, 107], [97] * 7, [97] * 9):
+                    # a tiny first frame, then a frame that fills the buffer exactly (it fits only after compaction)
+                    st = first + [10] + [97] * (S - 2) + [10] + [98, 10]
+                    for script in ([(0, 2 ** 32, 0)] * 6, [(3, 0, 0), (0, 2 ** 32, 0), (3, 0, 0)] + [(0, 2 ** 32, 0)] * 6, [(0, 4096, 0)] * 40):
+                        npend = sum(1 for x in script if x[0] == 3)
+                        cases.append(nm(mk_arf(S, 0, [], 0, st, script, 4, 0, ([1] * (npend + 4)) if self.with_cancel else [], "dictionary")))
+            # one long frame arriving in many reads of a few sizes, every Pending point a cancellation point
+            for S, flen, chunk in ((65536, 60000, 1000), (65536, 65000, 4096), (100000, 99000, 1500)):
+                st = [97] * flen + [10] + [98, 99, 10]
+                n = flen // chunk + 3
+                for pend_every in (0, 7):
+                    script = []
+                    for i in range(n):
+                        if pend_every and i % pend_every == 3:
+                            script.append((3, 0, 0))
+                        script.append((0, chunk, 0))
+                    npend = sum(1 for x in script if x[0] == 3)
+                    for cancel in ([], [1] * (npend + 8), [0] * 40 + [1] * 60):
+                        if cancel and not self.with_cancel:
+                            continue
+                        cases.append(nm(mk_arf(S, 0, [], 0, st, script, 2, 0, cancel, "dictionary")))
         for _ in range(2500 if tier == "quick" else 60000):
             which = rng.choice([0, 0, 1, 2, 5])
             size = rng.choice([2, 3, 4, 5, 8, 16])
@@ -386,7 +414,8 @@ class C14(ArfProp):
                   "reader state), c14_blocking_is_read_frame + c14_async_equals_blocking (that loop IS the translated blocking "
                   "FixedBuf::read_frame run against the std::io::Read obtained by polling the AsyncRead until ready, for readers that leave the "
                   "buffer alone when they deliver nothing; hence C02, C06, C12 transfer), c14_pending_keeps_bytes (a Pending poll leaves indices "
-                  "and unread bytes untouched; the only suspension point is the reader's Pending). "
+                  "and unread bytes untouched; the only suspension point is the reader's Pending); c14_copy_once_pending_invisible / "
+                  "c14_copy_once_blocking: the same for copy_once_from (Facets/AsyncCo.v). "
                   "Tie: real futures polled by hand with Waker counting; every subset of reader polls answered Pending for short scenarios; the "
                   "blocking FixedBuf methods run on the same chunks in the same process as the oracle.")
     nontrivial_rule = ("every composition of every short stream into chunks x EVERY subset of reader polls answered Pending, random larger scenarios "
@@ -397,7 +426,7 @@ class C15(ArfProp):
     pid = "C15"
     coq_targets = ["Props/C15.vo"]
     with_cancel = True
-    level_text = ("Coq theorem c15_cancel_invisible over the modelled lowering: for every schedule and EVERY set of pending points at which the "
+    level_text = ("Coq theorems c15_cancel_invisible (read_frame) and c15_copy_once_cancel_invisible (copy_once_from) over the modelled lowering: for every schedule and EVERY set of pending points at which the "
                   "future is dropped and a new call started, result, unread bytes and reader state equal those of the uncancelled (blocking) run; the "
                   "key lemma is that the state at the await is a fixed point of the loop prefix (restart re-runs deframe, an idempotent shift, and "
                   "offers the same view). Tie: every pending point of every short scenario as a cancellation point (singly exhaustive, plus all "
